@@ -51,6 +51,18 @@ EXCLUDE = {
 }
 
 
+# fixed inputs of the class (run by shard 0 while the class is searched; PROBES[0] is the
+# known_findings.json probe): silent wrong pick, and rejection although a variant accepts
+PROBES = {
+    "stale_arg_ast": [
+        {"variants": [{"params": ["tuple[float, bool]"], "ret": "int"}, {"params": ["tuple[int, int]"], "ret": "int"},
+                      {"params": ["T"], "ret": "int"}], "args": ["(123, 124)"], "pos": "synth"},
+        {"variants": [{"params": ["int"], "ret": "float"}, {"params": ["nat"], "ret": "nat"}], "args": ["120"],
+         "pos": "check", "rt": "nat"},
+    ],
+}
+
+
 def active_exclusions():
     env = os.environ.get("VERIF_C15_EXCLUDE", "").strip()
     if env == "none":
@@ -568,6 +580,10 @@ def worker(ctx):
             del pending[:]
             body(batch)
 
+    if ctx.shard == 0:
+        for kc, probes in PROBES.items():
+            if kc not in excl:
+                body([dict(p) for p in probes])
     harness.hyp_search(ctx, one, collect, max_examples=ctx.params["n"] * B, chunk=B * 2, time_frac=0.7)
     if pending and not ctx.out_of_time(0.7):
         body(list(pending))
